@@ -464,6 +464,9 @@ func (ex *Exec) callByIfaceContract(st *State, con *Contract, recv T, args []T, 
 		if m.allMaps {
 			ex.havocMaps(st)
 		}
+		if m.pkgHeaps != "" {
+			ex.havocPkgHeaps(st, m.pkgHeaps)
+		}
 	}
 	ex.vc.assumed["assumed interface contract "+con.Name+" (frame only) for every implementation"] = true
 	ex.usedContracts[con.Name] = true
@@ -484,6 +487,10 @@ func (ex *Exec) applyModifies(st *State, env *SpecEnv, con *Contract) {
 		}
 		if m.allMaps {
 			ex.havocMaps(st)
+			continue
+		}
+		if m.pkgHeaps != "" {
+			ex.havocPkgHeaps(st, m.pkgHeaps)
 			continue
 		}
 		for i, h := range m.heaps {
@@ -621,4 +628,18 @@ func (ex *Exec) beforeHooks(st *State, calleeName string, c *ssa.CallCommon, pos
 		ex.vc.oblige("assert", fmt.Sprintf("assert:%s@%s#%s", ex.conName(), calleeName, label), st.guard, t, ex.pos(pos)).SetNote(cl.Src)
 		ex.beforeSeen[calleeName] = true
 	}
+}
+
+// havocPkgHeaps: the fields of every struct type of one package may have changed (state of objects reached only
+// through an interface, e.g. aggregate accumulators), nothing else.
+func (ex *Exec) havocPkgHeaps(st *State, pkg string) {
+	prefix := "H_" + pkg + "."
+	for _, h := range append([]string(nil), ex.heapR.order...) {
+		if strings.HasPrefix(h, prefix) {
+			ex.heapSet(st, h, ex.vc.fresh(h, ex.heapR.sorts[h]))
+			ex.heapWrites[h] = true
+			ex.wholeWrites[h] = true
+		}
+	}
+	ex.pkgHavocked[pkg] = true
 }
